@@ -68,6 +68,13 @@ def rhs(bkind, M, Q, seed, exact):
         return B
     if bkind == "allzero":
         return np.zeros((n, 2), dtype=M.dtype)
+    if bkind == "mixcols":  # heterogeneous batch: an eigenvector (converges in one step), a generic column, a zero column
+        if Q is None:
+            w_, Q_ = np.linalg.eigh(M)
+        else:
+            Q_ = Q
+        B = np.stack([Q_[:, 0] * 2.0, rnd(n) + 0 * Q_[:, 0], np.zeros(n)], axis=1)
+        return B.astype(M.dtype) if np.iscomplexobj(M) else B.real.astype(M.dtype)
     if bkind == "zero1d":
         return np.zeros(n, dtype=M.dtype)
     if bkind == "eig1":
@@ -315,10 +322,10 @@ def cases(tier, seed):
         ms = list(range(0, 2 * n + 1)) if n <= 8 else sorted({0, 1, 2, 5, 10, 25, 2 * n})
         for cplx in (False, True):
             for spec in specs:
-                for bk in ["one", "three", "zerocol", "eig1", "eig2"]:
+                for bk in ["one", "three", "zerocol", "eig1", "eig2", "mixcols"]:
                     for x0k in ("none", "rand", "exact"):
                         for pk in (("none", "jacobi", "nystrom") if not cplx else ("none", "jacobi")):
-                            if tier == "quick" and (n > 8) and not (bk in ("one", "three") and x0k != "exact" and pk != "nystrom"):
+                            if tier == "quick" and (n > 8) and not (bk in ("one", "three", "mixcols") and x0k != "exact" and pk != "nystrom"):
                                 continue
                             if tier == "quick" and n == 8 and spec in ("cond10", "clusters") and pk == "nystrom":
                                 continue
